@@ -85,6 +85,9 @@ def check(prog, rep, tier):
     rep.rule('R19.b', 'flush on session change: connectionMade and connectionLost reset both RIBs on every path')
     rep.rule('R19.c', 'the RIB is touched only for a well-formed IPv4 UPDATE with RIB maintenance enabled; only BGP '
                       'methods write the RIB and version dictionaries')
+    rep.rule('R19.d', 'representation agreement: the family tests of the version updaters compare afi_safi with a '
+                      'literal of the type their producer yields (the decoders for received updates, JSON arrays for '
+                      'sent ones); a list never equals a tuple, so a mismatch makes the family branch dead')
     rep.assumptions += ['the dictionary model; the radix tree mirror is outside the statement',
                         'one item per update is analysed; by induction over the per-item loop any sequence follows']
     bgp = prog.cls(BGP_Q)
@@ -196,18 +199,30 @@ def check(prog, rep, tier):
                     seen.add((present, equal))
                     if others:
                         probs.append('another family counter moves: %s' % vs)
+                    stored = any(str(m).startswith('[') for m in muts)
+                    removed = any(str(m).startswith(('pop', 'del')) for m in muts) or any(
+                        a.kind == 'write' and a.target == 'del' and store in str(a.meth) for a in s.actions)
                     if kind == 'withdraw':
                         if present is True and d != 1:
                             probs.append('present rule withdrawn: version +%s' % d)
+                        if present is True and not removed:
+                            probs.append('present rule withdrawn but not removed from %s (mutations %s)' % (store, muts))
                         if present is False and d != 0:
                             probs.append('absent rule withdrawn: version +%s' % d)
+                        if present is False and (muts or removed):
+                            probs.append('absent rule withdrawn: table mutated %s' % muts)
                     else:
                         if present is False and d != 1:
                             probs.append('new rule: version +%s' % d)
+                        if present is False and not stored:
+                            probs.append('new rule is not stored in %s' % store)
                         if present is True and equal is True and d != 0:
                             probs.append('identical rule re-announced: version +%s' % d)
                         if present is True and equal is False and d != 1:
                             probs.append('changed rule: version +%s' % d)
+                        if present is True and equal is False and not stored:
+                            probs.append('changed rule: the new attributes are not stored in %s, so the next '
+                                         'comparison is made against stale attributes' % store)
                 need = {(True, None), (False, None)} if kind == 'withdraw' else \
                     {(False, None), (True, True), (True, False)}
                 if not need <= seen:
@@ -217,6 +232,50 @@ def check(prog, rep, tier):
                             found='; '.join(probs[:2]), expected='version moves exactly when the table changes', key=key)
                 else:
                     rep.ok('R19.a', key, file=f.file, line=f.node.lineno, found='%d case(s)' % len(seen))
+
+    # ---------------------------------------------------------------- R19.d
+    kinds = set()
+    for q in ('yabgp.message.attribute.mpreachnlri.MpReachNLRI.parse',
+              'yabgp.message.attribute.mpunreachnlri.MpUnReachNLRI.parse'):
+        pf = prog.func(q)
+        for n in ast.walk(pf.node):
+            if isinstance(n, ast.Call) and src_of(n.func) == 'dict':
+                for k in n.keywords:
+                    if k.arg == 'afi_safi':
+                        kinds.add(type(k.value).__name__)
+            if isinstance(n, ast.Dict):
+                for k, v in zip(n.keys, n.values):
+                    if isinstance(k, ast.Constant) and k.value == 'afi_safi':
+                        kinds.add(type(v).__name__)
+    if not kinds:
+        raise AnalysisError('R19.d: no afi_safi producer found in the MP_REACH / MP_UNREACH decoders')
+    nsites = 0
+    for meth, want in (('update_receive_verion', kinds), ('update_send_version', {'List'})):
+        f = bgp.find_method(meth)
+        for n in ast.walk(f.node):
+            if isinstance(n, ast.Compare) and len(n.ops) == 1 and isinstance(n.ops[0], ast.Eq) and \
+                    src_of(n.left).endswith("['afi_safi']") and isinstance(n.comparators[0], (ast.List, ast.Tuple)):
+                nsites += 1
+                lit = n.comparators[0]
+                code = src_of(n.left).split('[')[1].rstrip(']')
+                owner = [i for i in ast.walk(f.node) if isinstance(i, ast.If) and i.test is n]
+                effect = any(isinstance(x, (ast.Assign, ast.AugAssign, ast.Delete)) and 'self.' in src_of(x)
+                             for i in owner for b in i.body for x in ast.walk(b))
+                if not effect:
+                    continue        # a branch that only logs: dead or alive makes no difference
+                key = 'family-test:%s:%s:%s' % (meth, code, src_of(lit))
+                if {type(lit).__name__} == want or (want <= {'List', 'Tuple'} and len(want) == 2 and False):
+                    rep.ok('R19.d', key, file=f.file, line=n.lineno)
+                else:
+                    rep.bad('R19.d', key, file=f.file, line=n.lineno, func=f.qualname,
+                            found='%s compares a %s (what %s yields) with the %s literal %s: never equal, the branch '
+                                  'that maintains this family\'s table and version is dead' % (
+                                      src_of(n), '/'.join(sorted(want)).lower(),
+                                      'the MP_REACH/MP_UNREACH decoder' if meth == 'update_receive_verion' else 'the REST JSON',
+                                      type(lit).__name__.lower(), src_of(lit)),
+                            expected='compare with a %s' % '/'.join(sorted(want)).lower(), key=key)
+    rep.floor('R19.d', 'family tests', nsites, 12)
+    rep.ok('R19.d', 'producer-kind', found='decoders yield afi_safi as %s' % sorted(kinds), nontrivial=False)
 
     # ---------------------------------------------------------------- R19.b
     facts = common.env_facts(prog)
